@@ -4,6 +4,7 @@ import TsRsVerif.Lemmas.SpellingLemmas
 import TsRsVerif.Lemmas.HistoryWorld
 import TsRsVerif.Lemmas.HistoryMulti
 import TsRsVerif.Lemmas.HistoryTo
+import TsRsVerif.Lemmas.HistoryToMulti
 /-!
 # C06 — export results depend only on what was exported, not how or in what order
 
@@ -155,6 +156,46 @@ example : (∀ s ∈ exSp1 ++ exSp2, Path.absolute (cwdStr exFs0) s.1 = .ok "/w/
 #guard (runAllTo { fs := exFs0, reg := [] } exSp1).2 && (runAllTo { fs := exFs0, reg := [] } exSp2).2
 #guard ((runAllTo { fs := exFs0, reg := [] } exSp1).1.fs.lookup ["w".toList, "out".toList, "deep".toList, "shared.ts".toList])
   == ((runAllTo { fs := exFs0, reg := [] } exSp2).1.fs.lookup ["w".toList, "out".toList, "deep".toList, "shared.ts".toList])
+
+/-- **several files through `export_to`, directories created on the way**: `slots` are the target files (directory names below
+the root, file name), a step is (file, generated text, spelling of the path). From a process that has written none of them — and
+whatever directories exist: each step runs `create_dir_all` for its own file — every step of ANY interleaving returns `Ok`, and
+afterwards every file that received exports holds exactly the canonical text of ITS exports, every other regular file is as it was,
+no target has become a directory (`Lemmas/HistoryToMulti.lean`: the invariant `TInv` is preserved by `export_to`, using what
+`create_dir_all` changes — `Fs.createDirAllAux_lookup` — and when it succeeds — `Fs.createDirAllAux_succeeds`). -/
+theorem C06_export_to_interleaved (slots : List TSlot) (w : World) (ops : List TOp) (hs : TSlotsOK w.fs slots)
+    (hok : TOpsOK slots (cwdStr w.fs) ops) (hp : w.poisoned = false) (hreg : ∀ s ∈ slots, regGet w.reg (regKey s.path) = none) :
+    ∃ w', runOpsTo slots w ops = (w', true) ∧
+      (∀ (i : Nat) s, slots[i]? = some s → gensAt i (ops.map (·.1)) ≠ [] →
+        w'.fs.lookup s.loc = some (.file (fileText (canonSt (gensAt i (ops.map (·.1))))))) ∧
+      (∀ l c, (∀ (i : Nat) s, slots[i]? = some s → s.loc = l → gensAt i (ops.map (·.1)) = []) →
+        (w'.fs.lookup l = some (.file c) ↔ w.fs.lookup l = some (.file c))) := by
+  obtain ⟨w', hr, hinv⟩ := tmulti_history slots w ops hs hok hp hreg
+  exact ⟨w', hr, hinv.files, hinv.others⟩
+
+/-- … and the result depends only on what was exported where: two interleavings of the same steps (any order, any spellings; the
+directories are created by whichever step comes first) leave the same regular files with the same contents -/
+theorem C06_export_to_directory_independent (slots : List TSlot) (w : World) (ops₁ ops₂ : List TOp) (hperm : ops₁.Perm ops₂)
+    (hs : TSlotsOK w.fs slots) (hok : TOpsOK slots (cwdStr w.fs) ops₁)
+    (hp : w.poisoned = false) (hreg : ∀ s ∈ slots, regGet w.reg (regKey s.path) = none) :
+    ∃ w₁ w₂, runOpsTo slots w ops₁ = (w₁, true) ∧ runOpsTo slots w ops₂ = (w₂, true) ∧
+      ∀ l c, w₁.fs.lookup l = some (.file c) ↔ w₂.fs.lookup l = some (.file c) :=
+  tmulti_order_independent slots w ops₁ ops₂ hperm hs hok hp hreg
+
+/-! non-vacuity: two files in two directories that do not exist yet, three steps with three spellings -/
+instance : DecidablePred Path.CompName := fun n => by unfold Path.CompName; infer_instance
+def exTSlots : List TSlot := [⟨["w".toList, "out".toList, "deep".toList], "shared.ts".toList⟩, ⟨["w".toList, "out".toList], "Other.ts".toList⟩]
+def exTOps : List TOp := [((0, exB), "out/deep/shared.ts".toList), ((1, exO), "/w/out/./Other.ts".toList), ((0, exA), "./out/x/../deep/shared.ts".toList)]
+example : (∀ s ∈ exTSlots, ∀ n ∈ s.ns ++ [s.name], Path.CompName n) ∧ (∀ a ∈ exTSlots, ∀ b ∈ exTSlots, ∀ k, k ≤ b.ns.length → a.loc ≠ b.ns.take k)
+    ∧ (∀ s ∈ exTSlots, exFs0.lookup s.loc ≠ some .dir)
+    ∧ (∀ op ∈ exTOps, ∀ s, exTSlots[op.1.1]? = some s → Path.absolute (cwdStr exFs0) op.2 = .ok s.path) := by
+  refine ⟨by decide +kernel, by decide +kernel, by decide +kernel, ?_⟩
+  intro op hop s hs'
+  simp only [exTOps, List.mem_cons, List.not_mem_nil, or_false] at hop
+  rcases hop with rfl | rfl | rfl <;> simp [exTSlots] at hs' <;> subst hs' <;> decide +kernel
+#guard (runOpsTo exTSlots { fs := exFs0, reg := [] } exTOps).2
+#guard ((runOpsTo exTSlots { fs := exFs0, reg := [] } exTOps).1.fs.lookup ["w".toList, "out".toList, "deep".toList, "shared.ts".toList])
+  == ((runOpsTo exTSlots { fs := exFs0, reg := [] } exTOps.reverse).1.fs.lookup ["w".toList, "out".toList, "deep".toList, "shared.ts".toList])
 
 /-- before the fix `export()` keyed the registry by the un-normalised path: as `PathBuf`s the two
 spellings of one file are different keys -/
